@@ -14,7 +14,7 @@ ID = 'C02'
 LEVEL = 'exploration'
 RULE = (
     'cases: random site systems in the lattice zoo (8 Bravais classes incl. strongly triclinic, half of the cells '
-    'arbitrarily rotated): 2-8 sites (30 % on cell faces / corners), 1-3 labels assigned non-contiguously, in half '
+    'arbitrarily rotated): 2-8 sites (30 % on cell faces / corners), 1-3 labels assigned non-contiguously (label vocabularies include names that are prefixes / suffixes / substrings of each other: Li1/Li10/Li100, 48h/48h2/4, B/AB/ABA), in half '
     'of the cases one site is never visited; radius as float / per-label dict / automatic (None); inner fraction in '
     '{1, 0.9, 0.5, 0.3}; atoms (i) margin-controlled: placed in the inner sphere, the outer shell or outside all '
     'spheres at +-4 % of the radius, frequently through a periodic image, and (ii) uniformly random; a tenth of the '
